@@ -47,11 +47,27 @@ def err_class(ex) -> str:
     return "raw:" + type(ex).__name__
 
 
+_FROZEN = [False]
+
+
+def _freeze_once():
+    """gc.collect() is needed to judge 'the first socket is closed' independently of reference cycles, and a full
+    collection walks every live object: park everything that exists after the imports in the permanent generation
+    once per process, so that the later collections only look at what the runs themselves created."""
+    if not _FROZEN[0]:
+        import urllib3  # noqa: F401
+        import urllib3.connectionpool  # noqa: F401
+        gc.collect()
+        gc.freeze()
+        _FROZEN[0] = True
+
+
 class Session:
     """One response being consumed."""
 
     def __init__(self, case: dict, built: dict | None = None):
         import urllib3
+        _freeze_once()
         self.case = case
         self.b = built or bg.build(case)
         self.decode = bool(case.get("decode", True))
